@@ -1,6 +1,6 @@
 /- Line-protocol driver for M5b RunLoop (C16).
 
-   run <hyd> <report|0=ALL> <duration> <maxTrials> <backup 0/1> <convErr 0/1> <simTime> <prevTime> <fuelCap> <pres> <outs> <posts>
+   run <hyd> <report|0=ALL> <duration> <maxTrials> <backup 0/1> <convErr 0/1> <simTime> <prevTime> <fuelCap> <reportStart> <pres> <outs> <posts>
      pres  : comma separated new clock values returned by the successive presolve calls, or `-`
      outs  : one letter per `_solver_helper` call  c=converged i=iterLimit s=singular l=lineSearch t=timeLimit o=other, or `-`
      posts : one digit per post-solve phase (1 = changes made), or `-`
@@ -56,11 +56,11 @@ def contractBreach (cfg : Cfg) : Nat → Nat → St Trace Nat Nat → Option Nat
 
 def handle (line : String) : String :=
   match line.trimAscii.toString.splitOn " " with
-  | ["run", hyd, rep, dur, mt, bk, ce, st, pt, cap, pres, outs, posts] =>
-    match hyd.toInt?, rep.toInt?, dur.toInt?, mt.toInt?, st.toInt?, pt.toInt?, cap.toNat?,
+  | ["run", hyd, rep, dur, mt, bk, ce, st, pt, cap, rs, pres, outs, posts] =>
+    match hyd.toInt?, rep.toInt?, dur.toInt?, mt.toInt?, st.toInt?, pt.toInt?, cap.toNat?, rs.toInt?,
           parseInts pres, parseOuts outs, parseBools posts with
-    | some hyd, some rep, some dur, some mt, some st, some pt, some cap, some pres, some outs, some posts =>
-      let cfg : Cfg := { hyd, report := rep, duration := dur, maxTrials := mt, backup := bk == "1", convErr := ce == "1" }
+    | some hyd, some rep, some dur, some mt, some st, some pt, some cap, some rs, some pres, some outs, some posts =>
+      let cfg : Cfg := { hyd, report := rep, duration := dur, maxTrials := mt, backup := bk == "1", convErr := ce == "1", reportStart := rs }
       let w : Trace := { pres, outs, posts, nsolved := 0, starved := 0 }
       let s0 : St Trace Nat Nat := enterS Gen.shape cfg w st pt
       let need := fuel cfg s0.simTime s0.prevTime
@@ -71,7 +71,7 @@ def handle (line : String) : String :=
       let rowsOk := s.nodeRows == s.linkRows
       let breach := contractBreach cfg f 0 s0
       s!"{haltName s.halt} times={showInts s.times} rows={if rowsOk then showNats s.nodeRows else "MISMATCH"} acc={showInts s.accepted} nsolve={s.nSolve} left={s.w.pres.length},{s.w.outs.length},{s.w.posts.length} starved={s.w.starved} contract={match breach with | none => "ok" | some i => s!"broken@{i}"} fuel={if need ≤ cap then "ok" else "cap"} interp={if same then "same" else "DIFFERS"}"
-    | _, _, _, _, _, _, _, _, _, _ => "bad-op"
+    | _, _, _, _, _, _, _, _, _, _, _ => "bad-op"
   | _ => "bad-op"
 
 partial def loop (h : IO.FS.Stream) : IO Unit := do
